@@ -81,12 +81,60 @@ def run(ctx):
         accepted = judge(ctx, words, outs, "g%d" % n)
         if n == 0:
             binding_selftest(ctx, accepted)
+    end_to_end(ctx)
     ctx.cov["rule"] = ("every complete word (all set_status calls finished) of SetHome/ClearHome/Read/Skip/Write over two URLs up to "
                        "MaxChanges home changes and MaxStatus calls per actor (exhaustive); a word is non-trivial when a home "
                        "change happens between an actor's read and its write")
     ctx.cov["exhaustive"] = True
     ctx.assume("the pause point sits between the get and the set of set_status; hook events are emitted by the thread that "
                "performed the step, and the harness runs one step at a time, so event order is the order of the steps")
+
+
+def end_to_end(ctx):
+    """Growth: the HomeRelayWatch events of a live Endpoint (RelayActor and ActiveRelayActor tasks on a multi-thread
+    runtime, local relay server; recorded by the C25 driver) must be a behaviour of the same spec with the C26
+    invariants holding."""
+    word = ["req", "probe", "send_done", "unlock", "on_done"]
+    inp = ctx.write_ndjson("c26-e2e.in", [{"word": word}] * ctx.pick(1, 4))
+    outp = ctx.path("c26-e2e.out")
+    ctx.run_bin("vh_netrep", ["c25", "--in", inp, "--out", outp], timeout=1800)
+    evs = []
+    for o in ctx.read_ndjson(outp):
+        if o.get("env_error"):
+            raise ToolError("end-to-end run: %s" % o["env_error"])
+        evs += o["home_events"]
+    # a read event does not know the state its call will write: take it from the write that follows
+    lines, pending = [{"ev": "reset"}], {}
+    for i, e in enumerate(evs):
+        ln = {"ev": e["ev"], "url": e["url"], "want": "Connecting", "kind": "", "home": e["home"], "state": e["state"]}
+        if e["ev"] == "read":
+            nxt = next((x for x in evs[i + 1:] if x["url"] == e["url"] and x["ev"] in ("write", "done")), None)
+            if nxt is None or nxt["ev"] != "write":
+                break                      # the run ended inside this call
+            ln["want"] = nxt["state"]
+            pending[e["url"]] = True
+        elif e["ev"] == "done":
+            ln["kind"] = "write" if pending.pop(e["url"], False) else "skip"
+        lines.append(ln)
+    while lines and lines[-1]["ev"] in ("read", "write") and lines[-1]["url"] in pending:
+        lines.pop()                        # drop a call cut off by the end of the recording
+        if lines and lines[-1]["ev"] == "read":
+            lines.pop()
+    if len(lines) < 4:
+        raise ToolError("end-to-end run recorded only %d HomeRelayWatch events" % (len(lines) - 1))
+    tf = ctx.write_ndjson("c26-e2e.trace", lines)
+    res = ctx.tlc_trace("socket", "Trace_HomeRelay", tf, cfg="Trace_HomeRelay.cfg")
+    if res.violated:
+        ctx.report({"inv": res.violated, "at": "e2e", "schedule": "live_endpoint", "advertised": "other"},
+                   "HomeRelayWatch events of a live endpoint violate %s: %s" % (res.violated, [[x["ev"], x["url"], x["home"], x["state"]] for x in lines[1:]]),
+                   {"word": []})
+    elif res.trace_rejected_at is not None:
+        raise ToolError("end-to-end HomeRelayWatch trace not explainable at event %d: %s"
+                        % (res.trace_rejected_at, lines[res.trace_rejected_at - 1] if res.trace_rejected_at <= len(lines) else "eof"))
+    else:
+        ctx.count(case_key=["e2e"] + [[x["ev"], x["url"], x["home"], x["state"]] for x in lines[1:]], nontrivial=True)
+        ctx.sample({"live_endpoint_home_relay_events": [[x["ev"], x["url"], x["home"], x["state"]] for x in lines[1:]]}, limit=6)
+        ctx.log("end-to-end: %d HomeRelayWatch events of a live endpoint accepted" % (len(lines) - 1))
 
 
 def run_harness(ctx, words, tag):
